@@ -444,6 +444,20 @@ func init() {
 		Stub: []string{"file pager replaced by pg.Mem for the in-process part"},
 		Assumptions: []string{"read/byte budgets are asserted only on images of <=32 pages of <=1024 bytes, where the bound (P*U/4 cells)*(31+2P)+1000 reads exceeds any cycle-free traversal; larger images run under the panic oracle only", "a CPU loop that reads nothing is caught by the 300 s watchdog (exit 2)"},
 		MaxRunSecs: 300,
+		DeathSig: func(tail string, hung bool) string {
+			switch {
+			case hung:
+				return "hang:no-progress-for-300s"
+			case strings.Contains(tail, "worker memory cap"):
+				return "alloc:worker-memory-cap"
+			case strings.Contains(tail, "fatal error:"):
+				i := strings.Index(tail, "fatal error:")
+				return "fatal:" + strings.ReplaceAll(firstLine(tail[i+13:]), " ", "-")
+			case strings.Contains(tail, "panic:"):
+				return "crash:" + panicSite(tail)
+			}
+			return ""
+		},
 		Vacuity: func(st map[string]int64, runs int, tier string) error {
 			if st["probe.corruption-detected-by-some-op"] == 0 || st["probe.budget-sensitive-image"] == 0 || st["probe.driver-child"] == 0 {
 				return fmt.Errorf("reach probes at zero: %v", st)
